@@ -36,8 +36,9 @@ _TMP = None
 
 def tmpdir():
     global _TMP
-    if _TMP is None:
-        _TMP = tempfile.mkdtemp(prefix="c20-", dir=os.environ.get("VERIF_SCRATCH") or None)
+    scratch = os.environ.get("VERIF_SCRATCH") or None
+    if _TMP is None or not os.path.isdir(_TMP) or (scratch and not _TMP.startswith(scratch)):
+        _TMP = tempfile.mkdtemp(prefix="c20-", dir=scratch)
         atexit.register(shutil.rmtree, _TMP, True)
     return _TMP
 
@@ -431,22 +432,35 @@ class WSpace(object):
     def events(self, hist, tier):
         return write_events(self.kind)
 
+    @staticmethod
+    def _handles(o, mem):
+        """variable handles taken once and USED once for a label look-up along every dimension (whatever they cache is filled)"""
+        H = {}
+        for v, m in mem.items():
+            H[v] = o[v]
+            for d in m.dims:
+                call(lambda: H[v].read({d: py(m.axes[d].values[0])}))
+        return H
+
     def run(self, hist):
         path = os.path.join(tmpdir(), "w%d_%d.nc" % (os.getpid(), abs(hash(json.dumps(hist))) % 10 ** 9))
         o = None
         try:
             mem = make_file(self.kind, path)
             o = da.open_nc(path, "a")
+            H = self._handles(o, mem)
             changed = False
             for n, ev in enumerate(hist[1:]):
                 last = n == len(hist) - 2
                 if ev[0] == "reopen":
                     o.close()
                     o = da.open_nc(path, "a")
+                    H = self._handles(o, mem)
                     continue
                 v = ev[1]
                 m = mem[v]
                 before = common.snap(m)
+                hv = (lambda name: H[name]) if n % 2 == 0 else (lambda name: o[name])     # variable handle kept since open / fresh one
                 if ev[0] in ("append_row", "append_cols"):
                     n0 = m.shape[1]
                     k = 1 if ev[0] == "append_row" else ev[2]
@@ -454,10 +468,10 @@ class WSpace(object):
                     if ev[0] == "append_row":
                         xpos = c19.XL.index(ev[2])
                         block = DimArray(np.array([900.0 + n0]), axes=[Axis(np.array(newt), "time")])
-                        res = call(lambda: o[v].ix.__setitem__((xpos, [n0]), block))
+                        res = call(lambda: hv(v).ix.__setitem__((xpos, [n0]), block))
                     else:
                         block = DimArray(np.arange(3. * k).reshape(3, k) + 800 + n0, axes=[Axis(np.array(c19.XL), "x"), Axis(np.array(newt), "time")])
-                        res = call(lambda: o[v].ix.__setitem__((slice(None), slice(n0, n0 + k)), block))
+                        res = call(lambda: hv(v).ix.__setitem__((slice(None), slice(n0, n0 + k)), block))
                     if isinstance(res, Raised):
                         return bad("step {} {}: appending past the end of the unlimited dimension raised {}".format(n, ev, res), klass="unexpected-exception")
                     for name in list(mem):
@@ -485,7 +499,7 @@ class WSpace(object):
                         block = DimArray(np.arange(float(k)) + 700 + n0, axes=[Axis(np.array(newt), "time")])
                     idx = n0 if k == 1 else slice(n0, n0 + k)
                     rhs = block if k > 1 else block
-                    res = call(lambda: o[v].ix.__setitem__(idx, rhs))
+                    res = call(lambda: hv(v).ix.__setitem__(idx, rhs))
                     if isinstance(res, Raised):
                         return bad("step {} {}: appending past the end of the unlimited dimension raised {}".format(n, ev, res), klass="unexpected-exception")
                     for name in list(mem):
@@ -518,9 +532,9 @@ class WSpace(object):
                         tup = tuple(kw.get(d, slice(None)) for d in dims)
                         one = tup[0] if len(tup) == 1 else tup
                         if mode == "label":
-                            res = call(lambda: o[v].__setitem__(one if dims else (), rhsv))
+                            res = call(lambda: hv(v).__setitem__(one if dims else (), rhsv))
                         else:
-                            res = call(lambda: o[v].ix.__setitem__(one if dims else (), rhsv))
+                            res = call(lambda: hv(v).ix.__setitem__(one if dims else (), rhsv))
                         if isinstance(res, Raised):
                             return bad("step {} {}: on-disk assignment raised {} (in-memory selection {})".format(n, ev, res, common.describe(sel, 150)), klass="unexpected-exception")
                         vals = rhsv.values if isinstance(rhsv, DimArray) else rhsv
@@ -547,6 +561,24 @@ class WSpace(object):
                     mm = same_result(got, m, "after {}: variable {} read back ({})".format(hist[1:], v, stage))
                     if mm:
                         return bad(mm)
+                    if stage == "handle" and m.ndim:
+                        # the variable handles kept since the file was opened (each already used for a label look-up then) must see the
+                        # current labels: whole read, and a label-mode read of the LAST label of every dimension
+                        got = call(lambda: H[v].read())
+                        mm = same_result(got, m, "after {}: variable {} read through the handle kept since open".format(hist[1:], v)) if not isinstance(got, Raised) else "after {}: kept handle of {} raised {}".format(hist[1:], v, got)
+                        if mm:
+                            return bad(mm)
+                        for d in m.dims:
+                            lab = py(m.axes[d].values[-1])
+                            exp = call(m.take, {d: lab})
+                            got = call(lambda: H[v].read({d: lab}))
+                            if isinstance(got, Raised) != isinstance(exp, Raised):
+                                return bad("after {}: label read {{{!r}: {!r}}} of {} through the handle kept since open gives {} but in memory {}".format(
+                                    hist[1:], d, lab, v, common.describe(got, 150), common.describe(exp, 150)))
+                            if not isinstance(exp, Raised):
+                                mm = same_result(got, exp, "after {}: label read {{{!r}: {!r}}} of {} through the handle kept since open".format(hist[1:], d, lab, v))
+                                if mm:
+                                    return bad(mm)
             canon = common.digest(tuple((k, common.snap(m)) for k, m in sorted(mem.items())))
             return ok(hist[-1][0], changed, canon=canon)
         finally:
